@@ -533,6 +533,8 @@ func augment(lines []string, guard, goal string, intFuncs map[string]bool) (extr
 			if nf, ch := skolemiseHyp(f, true, &counter, &hypConsts); ch {
 				lines[i] = nf.String()
 				skolemised = append(skolemised, nf)
+				// also an extra assertion: a caller may assemble a variant from its own copy of the lines
+				extra = append(extra, nf.String())
 			}
 		}
 	}
@@ -628,6 +630,56 @@ func augment(lines []string, guard, goal string, intFuncs map[string]bool) (extr
 	for _, k := range sortedSexpKeys(apps) {
 		terms = append(terms, apps[k])
 	}
+	// the last element is the usual witness of an existential over a list that was just appended to
+	{
+		var walkEx func(f *sexp, bound map[string]bool)
+		n := 0
+		walkEx = func(f *sexp, bound map[string]bool) {
+			if f.list == nil {
+				return
+			}
+			h := f.head()
+			if (h == "exists" || h == "forall") && len(f.list) == 3 {
+				nb := map[string]bool{}
+				for k := range bound {
+					nb[k] = true
+				}
+				for _, b := range f.list[1].list {
+					if b.list != nil && len(b.list) > 0 {
+						nb[b.list[0].atom] = true
+					}
+				}
+				if h == "exists" && len(f.list[1].list) == 1 && n < 2 {
+					v := f.list[1].list[0].list[0].atom
+					var find func(g *sexp) *sexp
+					find = func(g *sexp) *sexp {
+						if g.list == nil {
+							return nil
+						}
+						if g.head() == "<" && len(g.list) == 3 && g.list[1].list == nil && g.list[1].atom == v && isGround(g.list[2], nb) {
+							return g.list[2]
+						}
+						for _, c := range g.list {
+							if r := find(c); r != nil {
+								return r
+							}
+						}
+						return nil
+					}
+					if u := find(f.list[2]); u != nil && len(u.String()) < 300 {
+						terms = append(terms, &sexp{list: []*sexp{{atom: "-"}, u, {atom: "1"}}})
+						n++
+					}
+				}
+				walkEx(f.list[2], nb)
+				return
+			}
+			for _, c := range f.list {
+				walkEx(c, bound)
+			}
+		}
+		walkEx(sk, map[string]bool{})
+	}
 	// witness indices introduced by library models (l.ForName(n) is l[fornameidx]) are
 	// what uniqueness / first-match hypotheses have to be instantiated at
 	if len(terms) > 0 {
@@ -665,7 +717,7 @@ func augment(lines []string, guard, goal string, intFuncs map[string]bool) (extr
 	}
 	seen := map[string]bool{}
 	limit := 600
-	for round := 0; round < 2; round++ {
+	for round := 0; round < 3; round++ {
 		if len(terms) > 10 {
 			terms = terms[:10]
 		}
@@ -674,15 +726,28 @@ func augment(lines []string, guard, goal string, intFuncs map[string]bool) (extr
 		for k, v := range other {
 			bySort[k] = v
 		}
+		// first the instances at constants only (goal constants and witnesses): existentials that
+		// these expose are eliminated and their witnesses offered to the next round
+		constOnly := map[string][]*sexp{}
+		for k, v := range bySort {
+			for _, t := range v {
+				if t.list == nil && (strings.HasPrefix(t.atom, "sk!") || strings.HasPrefix(t.atom, "hk!")) {
+					constOnly[k] = append(constOnly[k], t)
+				}
+			}
+		}
+		nWit := 0
 		for _, f := range quantified {
-			for _, inst := range instancesSorted(f, bySort, &limit) {
-				// an instance may expose an existential (forall j: ... exists m: ...): eliminate it and
-				// offer the witness constant to the next round
-				if strings.Contains(inst.String(), "(exists ") {
+			if round >= 2 || !strings.Contains(f.String(), "(exists ") {
+				continue
+			}
+			for _, inst := range instancesSorted(f, constOnly, &limit) {
+				if nWit < 16 && strings.Contains(inst.String(), "(exists ") {
 					var hc [][2]string
 					if ni, ch := skolemiseHyp(inst, true, &counter, &hc); ch {
 						inst = ni
 						for _, c := range hc {
+							nWit++
 							extraDecls = append(extraDecls, fmt.Sprintf("(declare-const %s %s)", c[0], c[1]))
 							if c[1] == "Int" {
 								newApps[c[0]] = &sexp{atom: c[0]}
@@ -690,6 +755,16 @@ func augment(lines []string, guard, goal string, intFuncs map[string]bool) (extr
 						}
 					}
 				}
+				s := inst.String()
+				if !seen[s] {
+					seen[s] = true
+					extra = append(extra, s)
+					groundSpecApps(inst, intFuncs, map[string]bool{}, newApps)
+				}
+			}
+		}
+		for _, f := range quantified {
+			for _, inst := range instancesSorted(f, bySort, &limit) {
 				s := inst.String()
 				if !seen[s] {
 					seen[s] = true
